@@ -39,7 +39,7 @@ func (f Float) WriteTerm(w io.Writer, opts *WriteOptions, _ *Env) error {
 		_, _ = ew.Write([]byte(")"))
 	}
 
-	if !openClose && opts.right != (operator{}) && (opts.right.name == atomSmallE || opts.right.name == atomE) {
+	if !openClose && opts.right != (operator{}) && (opts.right.name == atomE || letterDigit(opts.right.name)) {
 		_, _ = ew.Write([]byte(" "))
 	}
 
